@@ -10,6 +10,13 @@ use structopt::StructOpt;
 fn s(id: &str) -> String {
     format!("s{}", id)
 }
+/// hook scripts: every fifth id stands for a script text that itself contains colons (a URL, host:port, PATH=/a:/b)
+fn hs(id: &str) -> String {
+    match id.parse::<u64>() {
+        Ok(n) if n % 5 == 0 => format!("s{}:p:q", id),
+        _ => format!("s{}", id),
+    }
+}
 fn items(spec: &str) -> Vec<(String, String)> {
     if spec == "-" {
         return vec![];
@@ -84,7 +91,7 @@ fn yaml(spec: &str) -> String {
                 add_sub("hooks", None);
                 for kv in list(&v) {
                     let p = kv.find(':').unwrap();
-                    add_sub("hooks", Some(format!("e{}: {}", &kv[..p], s(&kv[p + 1..]))));
+                    add_sub("hooks", Some(format!("e{}: \"{}\"", &kv[..p], hs(&kv[p + 1..]))));
                 }
             }
             "ip" => top.push(format!("ip: {}", s(&v))),
@@ -166,8 +173,8 @@ fn argv(spec: &str) -> Vec<String> {
             "algos" => list(&v).iter().for_each(|x| opt("algorithm", ALGOS[idx(x)].to_string())),
             // hook items: "<id>" plain, "<event>:<id>" per event
             "hook" => list(&v).iter().for_each(|x| match x.find(':') {
-                Some(p) => opt("hook", format!("e{}:{}", &x[..p], s(&x[p + 1..]))),
-                None => opt("hook", s(x)),
+                Some(p) => opt("hook", format!("e{}:{}", &x[..p], hs(&x[p + 1..]))),
+                None => opt("hook", s(x)),    // (a plain script with a colon would be read as EVENT:SCRIPT - the syntax is ambiguous there)
             }),
             other => panic!("unknown args key {}", other),
         }
